@@ -268,6 +268,7 @@ def _real_type(name):
                 "numpy.bool_": np.bool_, "numpy.datetime64": np.datetime64, "numpy.timedelta64": np.timedelta64, "float": float, "int": int, "bool": bool,
                 "pandas.Series": pd.Series, "pandas.DatetimeIndex": pd.DatetimeIndex, "pandas.Index": pd.Index, "pandas.TimedeltaIndex": pd.TimedeltaIndex,
                 "pandas.Timestamp": pd.Timestamp, "pandas.DataFrame": pd.DataFrame, "pandas.core.window.rolling.Rolling": pd.core.window.rolling.Rolling,
+                "numpy.dtype": np.dtype, "numpy.ma.core.MaskedConstant": type(np.ma.masked), "builtins.list": list,
             }
             _REAL_TYPES.update(table)
         except Exception:  # noqa: BLE001
